@@ -23,6 +23,8 @@ def run(tier, rep):
     for hn, sp in hs.items():
         for pol in POLS:
             for un, u in users.items():
+                if tier == "quick" and un in ("Rs.Rs.", "Rs.Cs.") and hn != "L1":
+                    continue  # two-episode histories on one harness only in the quick tier
                 deep[(hn, un, pol)] = dict(spec=sp, user=u, policy=pol)
     jit_jobs = []
     jl = [("L2", H.L2(16, 8)), ("H3", H.H3((1, 6))), ("H5", H.H5())]
